@@ -12,7 +12,7 @@ theorems say they must (rules ignoring t: always; block engines: T1 odd)."""
 import numpy as np
 from harness.driver import call_impl, cz, cnat, cbool, czlist, cgrid, chist, clist, cres, cpair
 from harness.twins import make_rule, coq_rule_spec
-from harness.props.c06 import rand_rule, rand_hist, ints, MEMOS, DTYPES
+from harness.props.c06 import rand_rule, rand_hist, ints, MEMOS, DTYPES, build_ca, build_rule, conv
 
 ID = 'C05'
 COQ_IMPORTS = ('From CPL Require Import Model.Base Model.Rules Model.Engine Model.Evolve1D Model.Evolve2D Model.Block '
@@ -26,7 +26,9 @@ NOTES = ['one-call sweep: every H in 1..4 x T in 1..5 on every engine (evolve, e
          'split sweep: every (T1, T2) with T1 + T2 <= 7 on every engine and memoize mode; both the two-call result and '
          'the unsplit result are compared with the model; the oracle requires them to be equal for t-independent rules '
          '(plain engines) and for odd T1 (block engines)']
-ASSUMPTIONS = ['rule results are representable in the automaton dtype; float automata carry integer-valued floats',
+ASSUMPTIONS = ['rule results are representable in the automaton dtype; float automata carry integer-valued floats, except '
+               'the dyadic buckets: cells are base + j * 2^-40 (exact in float64; float32 with base 0) and the model works '
+               'on the integers j (injective rescaling; observed values are converted back exactly)',
                'T >= 1, 1 <= r <= ring size (r <= min(rows, cols) in 2D), block sizes divide the automaton',
                'memoised runs are made with pure rules only and compared with the plain-engine model (C03/C04)',
                'the rule does not hold a reference into the caller\'s array (that aliasing case is C13)']
@@ -192,6 +194,20 @@ def generate(rng, tier):
             i += 1
             yield _block(rng, 'split/block2d/%s' % ('oddT1' if T1 % 2 else 'evenT1'), 2, shape, list(bs), 1 + i % 3,
                          DTYPES[i % 4], _brule(rng, 2, tdep_ok=(i % 5 == 0)), T1=T1, T2=T2)
+    # (3b) float automata with non-integral (dyadic) states, plain engines
+    for k in range(40 if tier == 'quick' else 400):
+        dim = 1 + k % 2
+        fam, memo = PLAIN[k % 5]
+        shape, r, nb = (rng.randint(1, 5), 1, '-') if dim == 1 else ((rng.randint(1, 3), rng.randint(1, 3)), 1,
+                                                                      rng.choice(['Moore', 'von Neumann']))
+        dtype, base = [('float64', 1.0), ('float32', 0.0), ('float64', -3.0)][k % 3]
+        if k % 4 < 2:
+            yield _plain(rng, 'ext/dyadic', dim, shape, r, nb, rng.randint(1, 4), dtype, fam, memo,
+                         T=rng.randint(1, 5), base=base)
+        else:
+            T1, T2 = rng.choice(PAIRS)
+            yield _plain(rng, 'split/dyadic', dim, shape, r, nb, rng.randint(1, 3), dtype, fam, memo,
+                         T1=T1, T2=T2, base=base)
     # (4) random larger
     n_rand = 150 if tier == 'quick' else 2500
     for _ in range(n_rand):
@@ -215,7 +231,7 @@ def generate(rng, tier):
 # ---------------------------------------------------------------- implementation
 def _rule_obj(c):
     if c['eng'] == 'plain':
-        return make_rule(c['rule'], c['dim'])
+        return build_rule(c)
     return Blk1(c['rule']) if c['dim'] == 1 else Blk2(c['rule'])
 
 
@@ -229,22 +245,21 @@ def _call(cpl, c, ca, T, rule):
     return cpl.evolve2d_block(ca, block_size=tuple(c['bs']), timesteps=T, apply_rule=rule)
 
 
-def _arr(x):
-    a = np.asarray(x)
-    return ints(a.tolist())
+def _arr(c, x):
+    return conv(c, np.asarray(x))
 
 
 def run_impl(c):
     import cellpylib as cpl
-    ca = np.array(c['hist'], dtype=c['dtype'])
+    ca = build_ca(c)
     if 'T' in c:
         res = call_impl(lambda: _call(cpl, c, ca, c['T'], _rule_obj(c)))
-        after = ints(ca.tolist())
+        after = conv(c, ca)
         if res[0] != 'ok':
             return ['exc', res[1], {'after': after}]
         out = res[1]
         isarr = isinstance(out, np.ndarray)
-        return ['ok', {'out': _arr(out), 'after': after,
+        return ['ok', {'out': _arr(c, out), 'after': after,
                        'dtype': str(out.dtype) if isarr else type(out).__name__,
                        'shape': [int(s) for s in np.asarray(out).shape],
                        'fresh': bool(isarr and out is not ca and not np.shares_memory(out, ca))}]
@@ -254,11 +269,11 @@ def run_impl(c):
         o1 = _call(cpl, c, ca, c['T1'], rule)
         return _call(cpl, c, o1, c['T2'], rule)
     rs = call_impl(two)
-    ca2 = np.array(c['hist'], dtype=c['dtype'])
+    ca2 = build_ca(c)
     rw = call_impl(lambda: _call(cpl, c, ca2, c['T1'] + c['T2'] - 1, _rule_obj(c)))
-    return ['ok', {'split': ['ok', _arr(rs[1])] if rs[0] == 'ok' else list(rs),
-                   'whole': ['ok', _arr(rw[1])] if rw[0] == 'ok' else list(rw),
-                   'after': ints(ca.tolist())}]
+    return ['ok', {'split': ['ok', _arr(c, rs[1])] if rs[0] == 'ok' else list(rs),
+                   'whole': ['ok', _arr(c, rw[1])] if rw[0] == 'ok' else list(rw),
+                   'after': conv(c, ca)}]
 
 
 # ---------------------------------------------------------------- Coq
@@ -343,7 +358,7 @@ def shrink(c):
     if len(c['hist']) > 1:
         yield dict(c, hist=c['hist'][1:])
         yield dict(c, hist=c['hist'][-1:])
-    if c['dtype'] != 'int64':
+    if c['dtype'] != 'int64' and c.get('base') is None:
         yield dict(c, dtype='int64')
     if 'T' in c and c['T'] > 1:
         yield dict(c, T=c['T'] - 1)
